@@ -62,6 +62,14 @@ ROUND4_ASSUMPTIONS = [
 ]
 
 
+ROUND5_RULE = (" Round 5 dimensions (C03 only): 'halted' grid -- every (prefix, opcode) pair with the core stopped at instruction entry: a HALT or OFF (1/4 under a PRE byte) was executed earlier on the same emulator at the same address / next to it / elsewhere and nothing woke the core (3/4; registers and memory are then put back to the case, the power state is the one the instruction left), or the halted state was restored from outside into a fresh emulator (1/4); 'coexec' grid -- every (prefix, opcode) pair with a second Emulator (own registers, own memory, own generated valid instruction and state) executing one instruction inside the k-th data read/write callback of the instruction under test (k = 0 1/2, 1..3 3/8, 4..11 1/8); non-trivial there = judged with a memory operand (coexec: label coexec:fired = the instruction made more than k data accesses).")
+
+ROUND5_ASSUMPTIONS = [
+    "the power state (Emulator.state.halted, set by HALT/OFF, cleared only by power_on_reset / the embedding machine) is part of the machine state the statement quantifies over; Emulator.execute_instruction is the IL execution engine ('executing its lifted IL'): asked to execute an accepted instruction it lifts and evaluates it in every power state -- waking the core is the caller's business (pce500 clears state.halted itself before stepping); verdicts that vanish with the core running are tagged",
+    "two Emulator objects with their own Registers and Memory share no machine state: an instruction executed by one of them inside a memory callback of the other (synchronous co-simulation of a peripheral core) changes nothing the first one's operands denote; the nested instruction's own outcome (exceptions included) is not judged; verdicts that vanish without the nested execution are tagged; two host threads stepping two emulators are not generated (the re-entrant schedule is the deterministic representative)",
+]
+
+
 def run(ctx: Ctx) -> Report:
     c = _counts(ctx)
     tasks: List[Any] = [(PROPERTY, i, c["shards"], ctx.seed, c["per"], c["imax"], SALT) for i in range(c["shards"])]
@@ -78,10 +86,16 @@ def run(ctx: Ctx) -> Report:
     tasks += [(PROPERTY, i, fs, ctx.seed, ctx.pick(12, 32), 24, SALT, "overptr") for i in range(fs)]
     ps = 16
     tasks += [(PROPERTY, i, ps, ctx.seed, ctx.pick(3, 6), 24, SALT, "pagecross") for i in range(ps)]
+    # Round 5.  The power state at instruction entry (the core was stopped by a HALT / OFF executed earlier on the same
+    # emulator, or the halted state was restored from outside) and what the host does inside the memory callbacks (a
+    # second emulator executes an instruction there): every (prefix, opcode) pair, `count` cases per pair
+    hs = 16
+    tasks += [(PROPERTY, i, hs, ctx.seed, ctx.pick(1, 4), 24, SALT, "halted") for i in range(hs)]
+    tasks += [(PROPERTY, i, hs, ctx.seed, ctx.pick(2, 6), 24, SALT, "coexec") for i in range(hs)]
     K.GN.warm()
     rep = ctx.merge_reports(ctx.pmap(K.explore_shard, tasks))
-    rep.rule = RULE + ROUND4_RULE
-    rep.assumptions = list(ASSUMPTIONS) + list(ROUND4_ASSUMPTIONS)
+    rep.rule = RULE + ROUND4_RULE + ROUND5_RULE
+    rep.assumptions = list(ASSUMPTIONS) + list(ROUND4_ASSUMPTIONS) + list(ROUND5_ASSUMPTIONS)
     rep.exhaustive = False
     return rep
 
